@@ -37,7 +37,7 @@ def r1_bits(run, F):
         run.ob("R1-MUTABILITY-BITS", fn.split(" as ")[0].split("::")[-1], got == [want], F.where(b),
                "declare_variable(.., %s) expected, found %s" % (want, got))
     d = F.body("<alpha::common::Declaration as alpha::analyzer::mutability::Analyzable>::analyze")
-    m = [x for x in hirq.matches(d["hir"]) if len(x["arms"]) >= 5][0]
+    m = [x for x in hirq.matches(d["hir"]) if hirq.n_alts(x) >= 5][0]
     carm = hirq.arm_for(m, "Declaration::Constant")
     cs = [second_arg_summary(c) for c in hirq.calls(carm[0]["body"]) if hirq.callee(c) == MU + "Analyzer::declare_variable"] if carm else []
     run.ob("R1-MUTABILITY-BITS", "Constant", cs == ["(false || is_error)"], F.where(d), "constants are immutable: %s" % cs)
@@ -50,7 +50,7 @@ def r1_bits(run, F):
                 ok = hirq.summarize_bool(n["init"]).endswith(".is_err()")
         run.ob("R1-MUTABILITY-BITS", "is_error = value_type.is_err()", ok, F.where(b), "mutability is only faked for poisoned types")
     st = F.body("<alpha::common::Statement as alpha::analyzer::mutability::Analyzable>::analyze")
-    sm = [x for x in hirq.matches(st["hir"]) if len(x["arms"]) >= 8][0]
+    sm = [x for x in hirq.matches(st["hir"]) if hirq.n_alts(x) >= 8][0]
     darm = hirq.arm_for(sm, "Statement::Declaration")
     run.require(darm, "Statement::Declaration arm not found")
     tm = [x for x in hirq.matches(darm[0]["body"]) if hirq.local_name_of(x["scrut"]) == "value_type"]
@@ -111,7 +111,7 @@ def ok_err_rows(match):
 
 def r3_checked_mutation(run, F):
     st = F.body("<alpha::common::Statement as alpha::analyzer::mutability::Analyzable>::analyze")
-    sm = [x for x in hirq.matches(st["hir"]) if len(x["arms"]) >= 8][0]
+    sm = [x for x in hirq.matches(st["hir"]) if hirq.n_alts(x) >= 8][0]
     arm = hirq.arm_for(sm, "Statement::Assignment")
     run.require(arm, "Assignment arm not found")
     inner = [x for x in hirq.matches(arm[0]["body"]) if hirq.callee(hirq.unwrap_trivial(x["scrut"])) == MU + "Analyzer::use_variable"]
@@ -125,7 +125,7 @@ def r3_checked_mutation(run, F):
     run.ob("R3-ASSIGNMENT-CHECKED", "Statement::Assignment", ok, F.where(st, arm[0]),
            "an assignment survives only if use_variable(base, needs_outer_mutability(reference)) succeeds; otherwise it is poisoned (E530)")
     e = F.body("<alpha::common::Expression as alpha::analyzer::mutability::Analyzable>::analyze")
-    em = [x for x in hirq.matches(e["hir"]) if len(x["arms"]) > 12][0]
+    em = [x for x in hirq.matches(e["hir"]) if hirq.n_alts(x) > 12][0]
     darm = hirq.arm_for(em, "Expression::Deref")
     run.require(darm, "Deref arm not found")
     ok = False
@@ -174,7 +174,7 @@ def r3_checked_mutation(run, F):
 
 def r4_copies(run, F):
     e = F.body("<alpha::common::Expression as alpha::analyzer::function_calls::Analyzable>::analyze")
-    em = [x for x in hirq.matches(e["hir"]) if len(x["arms"]) > 12][0]
+    em = [x for x in hirq.matches(e["hir"]) if hirq.n_alts(x) > 12][0]
     darm = hirq.arm_for(em, "Expression::Deref")
     run.require(darm, "Deref arm not found in function_calls")
     tm = [x for x in hirq.matches(darm[0]["body"]) if hirq.local_name_of(x["scrut"]) == "deref_type"]
@@ -254,7 +254,7 @@ def r5_hint_codes(run, F):
     run.ob("R5-MISSING-ADDRESS-HINT", "can_hint_missing_address", rows == want, F.where(b),
            "E513 is hinted when the parameter is a pointer to the argument's type (or its address would coerce): %s" % rows, sample=rows)
     code = F.body("alpha::error::Error::code")
-    cm = [x for x in hirq.matches(code["hir"]) if len(x["arms"]) > 40][0]
+    cm = [x for x in hirq.matches(code["hir"]) if hirq.n_alts(x) > 40][0]
     rows = {hirq.pat_key(a["pat"]).split("::")[-1]: hirq.unwrap_trivial(a["body"]).get("v") for a in cm["arms"]}
     for v, c in (("ArgumentMissingAddress", 513), ("NotMutable", 530), ("CannotCopyArray", 531), ("CannotCopySlice", 532), ("CannotCopyStruct", 533),
                  ("AddressOfTemporaryAddress", 538)):
